@@ -1,6 +1,7 @@
 """Call dispatch: builtins, methods of model values, repository functions
 (contract application or inlining), constructors, struct_parse."""
 import ast
+import re
 import builtins
 import importlib
 import inspect
@@ -285,6 +286,16 @@ class Calls(DataModels):
                     else (v if z3.is_true(z3.simplify(to_int(i) == to_int(n0))) else el0(i))
                 obj.n = z3.simplify(to_int(n0) + 1)
                 return None
+            if name == 'extend':
+                seq = self.as_seq(I, args[0], node)
+                n0, el0 = obj.n, obj.elem
+
+                def elem(i, n0=n0, el0=el0, seq=seq):
+                    c = to_int(i) < to_int(n0)
+                    return I.ite(c, el0(i), seq.elem(to_int(i) - to_int(n0)))
+                obj.elem = elem
+                obj.n = z3.simplify(to_int(n0) + to_int(seq.n))
+                return None
             raise Unsupported('SList.%s' % name)
         if is_strlike(obj):
             return self.str_method(I, obj, name, args, kw, node)
@@ -506,9 +517,12 @@ class Calls(DataModels):
                 for e in c.ensures:
                     I.ctx.assume(I.as_goal(I.pure_eval(e, fr, {'result': res})))
                 return res
-            if c.returns is None and any('result' in e for e in c.ensures):
+            if c.returns is None and any(re.search(r'\bresult\b', e) for e in c.ensures):
                 raise Unsupported('contract %s constrains `result` but declares no `returns` shape' % c.qualname)
             res = c.returns.make(I.ctx, 'ret!' + c.qualname) if c.returns is not None else None
+            for k, sh in c.sets_shape.items():
+                # attribute given a fresh value of the shape, then constrained by the ensures
+                fr.env.get('self').attrs[k] = sh.make(I.ctx, 'set!%s.%s' % (c.qualname, k))
             if c.sets or c.sets_if:
                 target = fr.env.get('self')
                 for k, e in c.sets.items():
@@ -517,7 +531,14 @@ class Calls(DataModels):
                     # attribute present only under cond; at call sites it is given the value it has when present
                     target.attrs[k] = I.pure_eval(e, fr)
             for e in c.ensures:
-                I.ctx.assume(I.as_goal(I.pure_eval(e, fr, {'result': res})))
+                try:
+                    I.ctx.assume(I.as_goal(I.pure_eval(e, fr, {'result': res})))
+                except Unsupported as ex:
+                    if 'may raise' not in str(ex):
+                        raise
+                    # a postcondition that cannot be evaluated for this result shape is simply not
+                    # assumed at this call site (weaker assumption: sound)
+                    I.assumptions.add('call site of %s: postcondition %r not usable (not evaluable here)' % (c.qualname, e[:60]))
             return res
         finally:
             I.old_frame = prev_old
@@ -746,7 +767,10 @@ def _b_len(M, I, args, kw, node):
         return M.call_method(I, v, '__len__', [], {}, node, None)
     if v is None or isinstance(v, (int, bool)) or (is_sym(v) and not z3.is_string(v)):
         raise PyExc('TypeError', line_of(node), 'len()')
-    return len(v)
+    try:
+        return len(v)
+    except TypeError:
+        raise PyExc('TypeError', line_of(node), 'len() of %s' % type(v).__name__)
 
 
 def _b_int(M, I, args, kw, node):
